@@ -163,7 +163,8 @@ func scratchCleanup() {
 
 // fileSet is a directory with the configuration files of one case.
 type fileSet struct {
-	Dir string
+	Dir       string
+	c10Static bool // route_rule.data / cluster_conf.data hold C10's constant empty tables
 }
 
 var (
@@ -194,6 +195,9 @@ func newFileSet(parts ...interface{}) *fileSet {
 }
 
 func (f *fileSet) write(name, content string) string {
+	if name == fRoute || name == fCluster {
+		f.c10Static = false
+	}
 	p := filepath.Join(f.Dir, name)
 	if err := os.WriteFile(p, []byte(content), 0o644); err != nil {
 		panic(err)
